@@ -13,6 +13,11 @@ package main
 //	versions    6 x 6  Min/MaxVersion windows around 0x0101 (two of them exclude it)
 //	server certs  8    len(Certificates) x GetCertificate x GetKECertificate (four of them lack a key pair)
 //	server keys   6    sm2.sm2 and five foreign-key variants
+//
+// and HISTORIES (token hist=): the case above as first connection, then 2..4 further
+// connections between the same two parties, each `same` or a reconfiguration of 1..3 of
+// {client suites, server suites, client ALPN, server ALPN, client Clone, server Clone, server
+// cache in use} — see randomHistory / histStepToken.
 
 import (
 	"fmt"
@@ -64,20 +69,20 @@ var srvKeys = []string{"sm2.sm2", "p256.sm2", "ed.sm2", "rsa.sm2", "sm2.rsa", "s
 
 // cfg is a case as a vector of dimension indices.
 type cfg struct {
-	stack               string
-	cmask, smask        int // -1 = nil
-	crev, srev          bool
-	cextra, sextra      int
-	ckeys               int
-	auth                int
-	ca                  int
-	calpn, salpn        int
-	sni                 int
-	ccache, scache      bool
-	cclone, sclone      bool
-	cver, sver          int
-	scerts              int
-	skeys               int
+	stack          string
+	cmask, smask   int // -1 = nil
+	crev, srev     bool
+	cextra, sextra int
+	ckeys          int
+	auth           int
+	ca             int
+	calpn, salpn   int
+	sni            int
+	ccache, scache bool
+	cclone, sclone bool
+	cver, sver     int
+	scerts         int
+	skeys          int
 }
 
 func (c cfg) String() string {
@@ -216,9 +221,115 @@ func neighbours(c cfg) []cfg {
 	return out
 }
 
+// ---------------------------------------------------------------------------- histories
+
+// histStepToken draws one further connection of a history: `same`, or overrides of 1..3 of the
+// reconfigurable settings (suites / protocols of either side, Clone(), the server's use of its
+// session cache) with values from the same catalogues as the first connection.
+func histStepToken(r *hx.Rand) string {
+	if r.Chance(45) {
+		return "same"
+	}
+	b := func() string {
+		if r.Bool() {
+			return "1"
+		}
+		return "0"
+	}
+	suites := func() string {
+		extra := 0
+		if r.Chance(10) {
+			extra = 1 + r.Intn(3)
+		}
+		return suiteToken(r.Intn(17)-1, r.Bool(), extra)
+	}
+	n := 1 + r.Intn(3)
+	used := map[string]bool{}
+	var fs []string
+	for len(fs) < n {
+		var k, v string
+		switch x := r.Intn(100); {
+		case x < 30:
+			k, v = "ss", suites()
+		case x < 50:
+			k, v = "cs", suites()
+		case x < 62:
+			k, v = "salpn", alpnCat[r.Intn(len(alpnCat))]
+		case x < 72:
+			k, v = "calpn", alpnCat[r.Intn(len(alpnCat))]
+		case x < 82:
+			k, v = "scl", b()
+		case x < 90:
+			k, v = "ccl", b()
+		default:
+			k, v = "sca", b()
+		}
+		if used[k] {
+			continue
+		}
+		used[k] = true
+		fs = append(fs, k+":"+v)
+	}
+	return strings.Join(fs, "+")
+}
+
+// randomHistory: a first connection (mostly between caching, otherwise healthy parties, so
+// that sessions get established and resumed) followed by 2..4 further connections.
+func randomHistory(r *hx.Rand, stack string) string {
+	c := randomCfg(r, stack)
+	if r.Chance(85) {
+		c.ccache, c.scache = true, true
+		if c.cver >= 6 {
+			c.cver = r.Intn(6)
+		}
+		if c.sver >= 6 {
+			c.sver = r.Intn(6)
+		}
+		if c.scerts >= 5 {
+			c.scerts = r.Intn(5)
+		}
+		c.skeys = 0
+		if r.Chance(70) { // a client with both key pairs, issued by a CA the server accepts
+			c.ckeys, c.ca = 3, 1
+			if r.Chance(15) {
+				c.ca = 0
+			}
+		} else if r.Chance(70) { // or a policy that does not insist on a certificate
+			c.auth = []int{0, 1, 3}[r.Intn(3)]
+		}
+		if r.Chance(60) {
+			c.calpn, c.salpn = 0, 0
+		}
+	}
+	if r.Chance(70) { // more often than not the first connection has a suite in common
+		c.cmask, c.smask = -1, -1
+		if r.Bool() {
+			c.cmask = 1 + r.Intn(15)
+			c.smask = c.cmask | r.Intn(16)
+		}
+	}
+	n := 2 + r.Intn(3)
+	steps := make([]string, n)
+	for i := range steps {
+		steps[i] = histStepToken(r)
+	}
+	return c.String() + " hist=" + strings.Join(steps, ";")
+}
+
 // a DTLCP client that cannot build its ClientHello never sends a datagram: there is no
 // handshake for the server to end (a datagram transport has no connection to close).
 func dtlcpOK(c cfg) bool { return c.cver < 6 }
+
+// verIndex: the index in verCat of the client version window of a case text
+func verIndex(desc string) int {
+	v, _ := hx.KV(desc, "cver")
+	for i, s := range verCat {
+		if s == v {
+			return i
+		}
+	}
+	return 0
+}
 
 func generate(o hx.Opts) []string {
 	r := hx.NewRand(o.Seed)
@@ -244,14 +355,27 @@ func generate(o hx.Opts) []string {
 
 	// 1. witnesses of the findings (always first)
 	for _, st := range []string{"tlcp", "dtlcp"} {
-		raw("stack=" + st + " cn=0 cgk=1 auth=1")                          // F36: encryption key pair only, certificate requested
-		raw("stack=" + st + " cn=0 cgk=1 auth=3 scas=root")                // F36
-		raw("stack=" + st + " cn=1 cgk=1 cfam=other auth=1 scas=root")     // F36: signing certificate not acceptable
-		raw("stack=" + st + " cca=1 sca=1")                                // F37: resumption (fails on DTLCP before the repair)
+		raw("stack=" + st + " cn=0 cgk=1 auth=1")                      // F36: encryption key pair only, certificate requested
+		raw("stack=" + st + " cn=0 cgk=1 auth=3 scas=root")            // F36
+		raw("stack=" + st + " cn=1 cgk=1 cfam=other auth=1 scas=root") // F36: signing certificate not acceptable
+		raw("stack=" + st + " cca=1 sca=1")                            // F37: resumption (fails on DTLCP before the repair)
 		raw("stack=" + st + " cca=1 sca=1 ccl=1 scl=1 calpn=h2,http/1.1 salpn=http/1.1,h2 csn=test.example cn=2 auth=4 scas=root")
 		raw("stack=" + st + " cs=e011,e051,e013,e053 ss=e011,e051,e013,e053 cn=2") // configured order is ignored
-		raw("stack=" + st + " cs=e011,e051 cn=2 ss=nil auth=0")            // ECDHE under NoClientCert still asks for both certificates
-		raw("stack=" + st + " calpn=http/1.1 salpn=h2")                    // fallback rule
+		raw("stack=" + st + " cs=e011,e051 cn=2 ss=nil auth=0")                    // ECDHE under NoClientCert still asks for both certificates
+		raw("stack=" + st + " calpn=http/1.1 salpn=h2")                            // fallback rule
+		// histories: the same two configurations 4 and 5 times (full, then resumed again and again)
+		raw("stack=" + st + " cca=1 sca=1 hist=same;same;same")
+		raw("stack=" + st + " cca=1 sca=1 ccl=1 scl=1 cn=2 auth=4 scas=root cs=e011,e051 calpn=h2 salpn=h2 hist=same;same;same;same")
+		raw("stack=" + st + " cca=1 sca=1 cn=2 auth=1 cs=e051 hist=same;scl:1;same") // ECDHE session with client certificates, resumed
+		raw("stack=" + st + " cca=1 sca=1 cn=2 cs=e051 hist=same;same")              // … never resumed under NoClientCert
+		// the server is reconfigured around the same session cache: the session's suite disabled, enabled again, no common suite
+		raw("stack=" + st + " cca=1 sca=1 hist=ss:e013+scl:1;same;ss:e051;same")
+		raw("stack=" + st + " cca=1 sca=1 ss=e053,e013 hist=ss:e013;ss:e013;ss:e053,e013")
+		raw("stack=" + st + " cca=1 sca=1 ss=e013 hist=ss:nil;ss:nil+scl:1")                               // a better suite becomes available: the session is still resumed
+		raw("stack=" + st + " cca=1 sca=1 hist=cs:e013;cs:e013;same")                                      // the client no longer offers the session's suite
+		raw("stack=" + st + " cca=1 sca=1 calpn=h2,http/1.1 salpn=h2 hist=salpn:http/1.1;calpn:spdy;same") // ALPN is negotiated afresh; a refused connection drops the session
+		raw("stack=" + st + " cca=1 sca=0 hist=sca:1;sca:1;same;sca:1")                                    // the server's cache comes and goes
+		raw("stack=" + st + " cca=0 sca=1 hist=same;same")
 	}
 
 	base := cfg{stack: "tlcp", cmask: -1, smask: -1, ckeys: 3, ca: 1}
@@ -316,6 +440,18 @@ func generate(o hx.Opts) []string {
 		emit(randomCfg(r, "tlcp"))
 	}
 
+	// 5b. histories of 3..5 connections with reconfigurations in between
+	// (own generator, seeded through one splitmix step: consecutive seeds of hx.NewRand are the
+	// same stream shifted by one draw, and the parse of the stream into cases re-synchronises)
+	rh := hx.NewRand(hx.NewRand(o.Seed ^ 0xC01).U64())
+	nh := 1500 * o.Scale
+	if thorough {
+		nh = 60000 * o.Scale
+	}
+	for i := 0; i < nh; i++ {
+		raw(randomHistory(rh, "tlcp"))
+	}
+
 	// 6. DTLCP: the same generators, sampled more thinly (each handshake waits ~0.2 s)
 	nd, ndb := 600*o.Scale, 5*o.Scale
 	if thorough {
@@ -340,6 +476,16 @@ func generate(o hx.Opts) []string {
 	}
 	for i := 0; i < nd; i++ {
 		emit(randomCfg(r, "dtlcp"))
+	}
+	ndh := 250 * o.Scale
+	if thorough {
+		ndh = 15000 * o.Scale
+	}
+	for i := 0; i < ndh; i++ {
+		h := randomHistory(rh, "dtlcp")
+		if dtlcpOK(cfg{cver: verIndex(h)}) {
+			raw(h)
+		}
 	}
 	return out
 }
